@@ -115,3 +115,25 @@ Qed.
 Lemma init_cpu_blob_attr_pinned_silent :
   init_cpu_blob_attr false KDUMP_OK true false KDUMP_OK = (KDUMP_OK, false).
 Proof. reflexivity. Qed.
+
+(** the noerr flag is restored by every scan, hence by every sequence of scans *)
+Lemma scan_mapped_restores flag ls ts : snd (scan_mapped false flag ls ts) = flag.
+Proof. unfold scan_mapped. cbn [negb]. destruct (negb (ls =? ADDRXLAT_OK)); reflexivity. Qed.
+
+Lemma scans_restore l : forall flag, scans false flag l = flag.
+Proof.
+  induction l as [|[ls ts] l IH]; intro flag; [reflexivity|].
+  cbn [scans]. rewrite scan_mapped_restores. apply IH.
+Qed.
+
+(** so a later non-present entry is reported with a message *)
+Lemma not_present_has_message l :
+  ax_status_msg_ok (step_not_present (scans false false l)) = true.
+Proof. rewrite scans_restore. reflexivity. Qed.
+
+(** the seeded variant: one scan whose launch fails leaves the flag set, and
+    the next non-present entry has status NOTPRESENT without a message *)
+Lemma early_set_variant_loses_message :
+  scans true false [(ADDRXLAT_ERR_INVALID, ADDRXLAT_OK)] = true /\
+  ax_status_msg_ok (step_not_present (scans true false [(ADDRXLAT_ERR_INVALID, ADDRXLAT_OK)])) = false.
+Proof. split; reflexivity. Qed.
